@@ -136,6 +136,14 @@ def run(ctx):
             for p_, fam in ((tn, "touch:T_n"), ([-x for x in tn], "touch:-T_n"), (nm, "touch:normalised")):
                 for setting in ((1e-2, 1 - 1e-4, 1e-6), (0.05, 1.0, 1e-6), (1e-2, 1 - 1e-3, 1e-7)):
                     cases.append(mk_case(rng, p_, fam, setting, rng.choice(["Wx", "Wz"]), Q.seed_vectors(rng, min(n, 12), 1)[0], None))
+        # option values at the edge: eps = 0 with a success factor clearly below 1 (the target is still suc * p), and tolerance = 0 (nothing can be
+        # returned in floating point; with a fault injected even less so)
+        for d in ((1, 2, 3, 4) if quick else range(1, 9)):
+            pz = gen_poly(rng, d, "good")
+            for setting in ((0.0, 0.8, 1e-6), (0.0, 0.5, 1e-7), (0.0, 0.95, 1e-8)):
+                cases.append(mk_case(rng, pz, "eps0", setting, rng.choice(["Wx", "Wz"]), Q.seed_vectors(rng, min(d, 12), 1)[0], None))
+            cases.append(mk_case(rng, pz, "tol0", (1e-4, 1 - 1e-4, 0.0), rng.choice(["Wx", "Wz"]), Q.seed_vectors(rng, min(d, 12), 1)[0], None))
+            cases.append(mk_case(rng, pz, "tol0", (1e-4, 1 - 1e-4, 0.0), rng.choice(["Wx", "Wz"]), Q.seed_vectors(rng, min(d, 12), 1)[0], 1e-3))
         # integer-valued coefficient vectors (+-T_n, monomials) in every container the entry point accepts
         for n in (range(1, 8) if quick else range(1, 13)):
             tn = [float(x) for x in Q.cheb2mono([Fraction(0)] * n + [Fraction(1)])]
